@@ -81,6 +81,46 @@ theorem createRequest_spec (t : Target) (c : ApiClass) (defNs : String) (hv : c.
     have hpo := pinned_krRaw t c hv hk o (pinned_krNew t hn hp)
     exact ⟨rfl, rfl, rfl, rfl, _, rfl, hpo, by simp [krNamespace]⟩
 
+/-- kr8s adds nothing to a pinned payload: the namespace its constructor writes and the
+    kind/apiVersion its `raw` getter re-imposes are already there with the same values, so the
+    body of the POST is the payload `_prepare_for_api` returned — the one its annotation records -/
+theorem createRequest_body_eq (t : Target) (c : ApiClass) (defNs : String) (hv : c.ver = t.ver) (hk : c.kind = t.kind)
+    {p : JVal} {req : Request} (hp : Pinned t p) (h : createRequest c defNs p t.ns = some req) :
+    req.body = some p := by
+  obtain ⟨h1, h2, h3, h4⟩ := hp
+  unfold createRequest at h
+  cases p with
+  | obj kvs =>
+    have hraw : krRaw c (.obj kvs) = .obj kvs := by
+      simp only [getKey] at h1 h2
+      rw [← hv] at h1; rw [← hk] at h2
+      simp only [krRaw]
+      rw [insert_of_lookup h2, insert_of_lookup h1]
+    cases hns : t.ns with
+    | none =>
+      rw [hns] at h
+      simp only [krNew, Option.map_some, Option.some.injEq] at h
+      subst h
+      simp [hraw]
+    | some n =>
+      rw [hns] at h
+      have hn := h4 n hns
+      simp only [metaKey, getKey] at hn
+      cases hm : JVal.lookup "metadata" kvs with
+      | none => simp [hm] at hn
+      | some mv =>
+        cases mv with
+        | obj m =>
+          simp only [hm, Option.bind_some, getKey] at hn
+          have hset : setMetaKey "namespace" (.str n) (.obj kvs) = some (.obj kvs) := by
+            simp only [setMetaKey, hm]
+            rw [insert_of_lookup hn, insert_of_lookup hm]
+          simp only [krNew, hset, Option.map_some, Option.some.injEq] at h
+          subst h
+          simp [hraw]
+        | _ => simp [hm, getKey] at hn
+  | _ => simp [getKey] at h1
+
 /-! ## what a reconcile can send -/
 
 /-- the load as the model performs it -/
